@@ -16,7 +16,7 @@ MIN_EVENTS = {"twin fits compared (absolute)": 150,
               "plateau twins: scan compared": 60,
               "initial contact points observed at the optimiser": 1500}
 TIMEOUT = {"quick": 900, "thorough": 3500}
-N_CASES = {"quick": 75, "thorough": 1500}     # per shard
+N_CASES = {"quick": 75, "thorough": 12000}     # per shard
 KS = [0.1, 0.23, 1 / np.pi, 0.5, 0.6135, 0.9, 1.7, 3.0]
 RULE = ("case = (power-law model curve, k from {0.1 .. 3}, segment, range "
         "type absolute full / interval / relative cp / plateau search, "
